@@ -220,6 +220,7 @@ def run_check(prop, tier, seed):
     cov["disagreements_checked"] = len(disagreements)
     cov["known_findings_replayed"] = len(known_hit)
     cov["input_distribution"] = dict(sorted(tagcount.items()))
+    cov["unrecognised_error_wording_accepted"] = core.WORDING_FALLBACK[0]
     cov["corpus_cases"] = len([s for s in srcs if s])
     if getattr(prop, "exhaustive", None):
         cov["exhaustive_part"] = prop.exhaustive.get(tier)
